@@ -22,7 +22,7 @@ use crate::props::gcase::{gcase, GCase};
 use crate::runner::{CheckResult, Env, Job, Outcome, PropJob};
 use crate::util::{canon, rc, splitmix, to_ascii, Seq};
 
-pub const RULE: &str = "values: for every k-mer type (generated values incl. all-T / high-lane patterns, u128 storage), Lmer of 1..3 words, DnaString (lengths incl. 0 and multiples of 32), all 256 Exts, Dir, PackedDnaStringSet and BaseGraph: serde_json round trip gives an equal value (and equal rendering). graphs: finished graphs from generated read sets (both strandedness values, thresholds, three entry points; empty, single-node, link-free graphs, last node without right link, left/right hairpins, circular self-links and palindromic single-k-mer nodes all occur and are labelled): serde round trip answers every query identically (nodes, edges, find_link for present and absent k-mers); write_gfa / to_gfa / to_gfa_with_tags are parsed: one S line per node with the exact sequence (and tags), every L has overlap (K-1)M, its oriented segments really overlap by K-1, its (K+1)-mer is an adjacency of the graph, and the multiset of L lines covers every resolvable inter-node adjacency exactly once (1 or 2 times when it touches a palindromic single-k-mer node); to_json_rest / to_json output parses with serde_json, lists every node (id, length, data, sequence when shorter than 256) and exactly the right-going edges in order, with and without extra top-level members. Non-trivial = graph has >= 1 link.";
+pub const RULE: &str = "values: for every k-mer type (generated values incl. all-T / high-lane patterns, u128 storage), Lmer of 1..3 words, DnaString (lengths incl. 0 and multiples of 32), all 256 Exts, Dir, PackedDnaStringSet and BaseGraph: serde_json round trip gives an equal value (and equal rendering). graphs: finished graphs from generated read sets (both strandedness values, thresholds, three entry points; empty, single-node, link-free graphs, last node without right link, left/right hairpins, circular self-links and palindromic single-k-mer nodes all occur and are labelled): serde round trip answers every query identically (nodes, edges, find_link for present and absent k-mers); write_gfa / to_gfa / to_gfa_with_tags (the two file exports onto longer pre-existing files) are parsed: one S line per node with the exact sequence (and tags), every L has overlap (K-1)M, its oriented segments really overlap by K-1, its (K+1)-mer is an adjacency of the graph, and the multiset of L lines covers every resolvable inter-node adjacency exactly once (1 or 2 times when it touches a palindromic single-k-mer node); to_json_rest / to_json output parses with serde_json, lists every node (id, length, data, sequence when shorter than 256) and exactly the right-going edges in order, with and without extra top-level members. Non-trivial = graph has >= 1 link.";
 pub const TECHNIQUE: &str = "seeded proptest; serde round-trip equality + independent GFA/JSON parsers compared with the graph's adjacency set";
 
 fn roundtrip<T: Serialize + DeserializeOwned>(what: &str, x: &T) -> Result<T, String> {
